@@ -10,6 +10,7 @@ CHECKS = {
  "C02": ("Theorem: elide_set_with_action (any target set, mode, action) and the whole-envelope obscuring operations preserve the root digest and the digest at every remaining position; correspondence on shapes; position-by-position oracle on the implementation.", "5/C02"),
  "C04": ("Theorem: the invariant (WF + canonical shape) is preserved by every modelled operation and implies the CBOR grammar; correspondence on shapes and bytes after every step of random histories; independent grammar recogniser on the implementation's bytes.", "5/C04"),
  "C05": ("Theorem: decoding the CBOR tree of an invariant-satisfying envelope returns that envelope (hence identical bytes); correspondence on bytes/shapes of recode; byte-identity, is_identical_to and UR oracles on the implementation.", "5/C05"),
+ "C06": ("Theorem: whatever the model decoder accepts re-encodes to the input CBOR tree (up to the leaf-tag alias 24->201); rejection lemmas per malformed class; the model decoder is total and has no panic outcome. Correspondence of verdict and result on valid encodings, single/double structural mutations, byte mutations, hand-made non-canonical forms and random bytes; re-encode, independent-grammar and catch_unwind oracles on the implementation.", "5/C06"),
  "C07": ("Theorem: adding the same set of assertions in any order with any repetition gives equal envelopes; add idempotent; remove-after-add restores; unwrap(wrap)=id. Correspondence over permutations; receiver-unchanged and unordered-collection oracles on the implementation.", "5/C07"),
 }
 def main():
